@@ -54,6 +54,7 @@ partial def sigTable : P (List (Bytes × SigPkt)) := do
       | "v3" => do
         let pk ← natTok; let h ← hexTok; let i ← natTok
         pure (SigPkt.v3 pk h i)
+      | "other" => pure SigPkt.other
       | _ => pure SigPkt.malformed : P SigPkt)
     let r ← sigTable
     pure ((b, pkt) :: r)
